@@ -1,5 +1,6 @@
 import ModVerif.Drv.MainLoop
 import ModVerif.Drv.Edit
+import ModVerif.Drv.GenEdit
 open ModVerif.Drv
 
-def main : IO Unit := runMain [("edit", Edit.handle)]
+def main : IO Unit := runMain [("edit", Edit.handle), ("gedit", GenEdit.handle)]
